@@ -13,10 +13,15 @@
 mod atoms;
 mod checks;
 mod corpus;
+#[cfg(feature = "native")]
+mod engine;
+#[cfg(feature = "native")]
+mod ffi;
 mod holders;
 mod compose;
 #[cfg(feature = "native")]
 mod isolate;
+mod modgraphs;
 #[cfg(not(feature = "native"))]
 #[path = "isolate_inproc.rs"]
 mod isolate;
